@@ -415,7 +415,7 @@ func (g *gen) schedScenario(w *world, steps int) {
 		case k < 22:
 			sl.deliverOne(g.r.Intn(2) == 0)
 		case k < 24:
-			w.tick([]int{31, 50, 61, 120}[g.r.Intn(4)])
+			w.tick([]int{45, 45, 75, 120}[g.r.Intn(4)])
 		case k < 26:
 			sl.replay(p)
 		case k < 27:
@@ -581,6 +581,144 @@ func (g *gen) lossyBurst(w *world) {
 	}
 }
 
+
+// C05 at the top of the counter range: the peer's data message carries the greatest counter there is,
+// 0xFFFFFFFFFFFFFFFF (legal: any 8 byte value greater than the last one; this library's own sender
+// counts 1, 2, 3 ... so the message is built here from a genuine one that is lost on the way: same
+// key ids, next key, flags and plaintext, the counter replaced, enciphered with the sender's own AES
+// key - hook VerifOpenData on the SENDER's conversation - and authenticated with the MAC key of the
+// pair). Once it has been accepted, neither it nor any earlier message of the pair is accepted again,
+// however often and in whatever order they are delivered.
+func (g *gen) maxCounterReplay(w *world) {
+	w.parties = map[string]*party{}
+	w.dead = false
+	version := 2 + g.r.Intn(2)
+	pol := 2
+	if version == 3 {
+		pol = 4
+	}
+	a := w.newParty(partyCfg{policies: pol, keyIdx: 0, errh: true})
+	b := w.newParty(partyCfg{policies: pol, keyIdx: 1, errh: true})
+	l := &link{w: w, a: a, b: b}
+	l.enqueue(a, []otr3.ValidMessage{w.query(a)})
+	l.settle(40)
+	for i := 0; i < g.r.Intn(3) && !w.dead; i++ { // the ratchets are somewhere
+		p := []*party{a, b}[g.r.Intn(2)]
+		ts, _ := w.send(p, g.cleanText())
+		l.enqueue(p, ts)
+		l.settle(10)
+	}
+	if !a.c.IsEncrypted() || !b.c.IsEncrypted() || w.dead {
+		return
+	}
+	S, R := a, b
+	if g.r.Intn(2) == 0 {
+		S, R = b, a
+	}
+	// earlier messages of the pair, delivered in order
+	var wires, texts [][]byte
+	for i := 0; i < 1+g.r.Intn(3) && !w.dead; i++ {
+		t := g.cleanText()
+		ts, _ := w.send(S, t)
+		if len(ts) != 1 || !isDataWire(ts[0]) {
+			g.dist["sched:max-counter-no-message"]++
+			return
+		}
+		plain, back, _, _ := w.recv(R, ts[0])
+		l.enqueue(R, nil)
+		_ = back // (whatever the addressee answers - a heartbeat, say - is lost: the sender's pair stays)
+		if !bytes.Equal(plain, t) {
+			g.dist["sched:max-counter-earlier-not-delivered"]++
+			return
+		}
+		wires = append(wires, ts[0])
+		texts = append(texts, t)
+	}
+	if w.dead {
+		return
+	}
+	// the genuine message that is lost, and its twin with the greatest counter
+	last := g.cleanText()
+	ts, _ := w.send(S, last)
+	if len(ts) != 1 || !isDataWire(ts[0]) || w.dead {
+		return
+	}
+	bin := decodeWire(ts[0])
+	f, ok := dataFields(bin, version)
+	sk, rk, ctr, ok2 := otr3.VerifDataIDs(ts[0])
+	clear, ok3 := otr3.VerifOpenData(S.c, ts[0], true)
+	macKey := otr3.VerifMACKeys(R.c)[fmt.Sprintf("%d:%d", rk, sk)]
+	if sk0, rk0, _, k := otr3.VerifDataIDs(wires[0]); !k || sk0 != sk || rk0 != rk {
+		g.dist["sched:max-counter-pair-moved"]++
+		return
+	}
+	if !ok || !ok2 || !ok3 || macKey == nil || f.encStart < 12 || len(clear) != f.encEnd-f.encStart {
+		g.dist["sched:max-counter-not-built"]++
+		return
+	}
+	top := append([]byte{}, bin...)
+	for i := f.encStart - 12; i < f.encStart-4; i++ {
+		top[i] = 0xff
+	}
+	copy(top[f.encStart:f.encEnd], clear)
+	enc, ok := otr3.VerifOpenData(S.c, encodeWire(top), true) // (counter mode: enciphering = deciphering)
+	if !ok || len(enc) != len(clear) {
+		g.dist["sched:max-counter-not-built"]++
+		return
+	}
+	copy(top[f.encStart:f.encEnd], enc)
+	mac := hmac.New(sha1.New, macKey)
+	mac.Write(top[:f.macStart])
+	copy(top[f.macStart:f.macStart+20], mac.Sum(nil))
+	topWire := encodeWire(top)
+	plain, back, _, _ := w.recv(R, topWire)
+	l.enqueue(R, nil)
+	olog.ok("C05")
+	if w.dead {
+		return
+	}
+	if !bytes.Equal(plain, last) {
+		// (the addressee does not take the counter value: nothing has been accepted, nothing to replay)
+		g.dist["sched:max-counter-not-accepted"]++
+		return
+	}
+	_ = back
+	wires = append(wires, topWire)
+	texts = append(texts, last)
+	name := func(j int) string {
+		if j == len(wires)-1 {
+			return fmt.Sprintf("the message with counter 0xffffffffffffffff (text %q)", texts[j])
+		}
+		return fmt.Sprintf("message %d of the pair (text %q)", j+1, texts[j])
+	}
+	n := len(wires)
+	var order []int
+	order = append(order, n-1)
+	for j := 0; j < n; j++ {
+		order = append(order, j)
+	}
+	for i := 0; i < 2+g.r.Intn(3); i++ {
+		order = append(order, g.r.Intn(n), n-1)
+	}
+	for step, j := range order {
+		p, back, _, _ := w.recv(R, wires[j])
+		olog.ok("C05")
+		if w.dead {
+			return
+		}
+		answered := false
+		for _, m := range back { // an OTR error reply is the only thing a rejected message may cause
+			if !isErrorReply(m) {
+				answered = true
+			}
+		}
+		if p != nil || answered {
+			olog.viol("C05", "replay-delivered", fmt.Sprintf("OTRv%d: under key pair (sender key id %d, recipient key id %d) %s accepted %d message(s) with counters 1.. (the last genuine counter sent was %d) and then an authenticated message of the same pair with the greatest counter 0xffffffffffffffff; replay number %d afterwards, %s, was delivered again: plaintext %q", version, sk, rk, R.id, n-1, ctr, step+1, name(j), p))
+			break
+		}
+	}
+	g.dist["sched:max-counter-replay"]++
+}
 
 // C09: a fixed crossing schedule in which a rotation of the peer's key (retiring a used pair) is
 // followed, with no data message sent in between, by a rotation of our own key: both retirements
@@ -947,7 +1085,7 @@ func (g *gen) reAkeDisclosure(w *world) {
 	}
 	sl.sendText(B, g.cleanText())
 	sl.drain() // A has accepted messages under keys it has not revealed yet
-	w.tick(61)
+	w.tick(75)
 	st := []*party{A, B}[g.r.Intn(2)]
 	sl.enqueue(st, []otr3.ValidMessage{w.query(st)})
 	sl.drain()
@@ -1017,10 +1155,66 @@ func (g *gen) endThenReAkeDisclosure(w *world) {
 	if w.dead {
 		return
 	}
+	// user calls that are refused because there is no conversation any more (AbortAuthentication,
+	// StartAuthenticate, ProvideAuthenticationSecret on a side that called End or whose peer ended the
+	// conversation): no message goes out, so the keys that wait to be disclosed must keep waiting
+	refused := func(p *party) {
+		if p.c.IsEncrypted() || w.dead {
+			return
+		}
+		calls := []int{0}
+		switch g.r.Intn(4) {
+		case 0:
+			calls = []int{1, 0}
+		case 1:
+			calls = []int{0, 2, 0}
+		case 2:
+			calls = []int{2, 1, 0}
+		}
+		for _, k := range calls {
+			if w.dead {
+				return
+			}
+			var ts []otr3.ValidMessage
+			var err error
+			name := ""
+			switch k {
+			case 0:
+				ts, err = w.smpAbort(p)
+				name = "AbortAuthentication()"
+			case 1:
+				ts, err = w.smpStart(p, "", []byte("s3cret"))
+				name = "StartAuthenticate(\"\", \"s3cret\")"
+			case 2:
+				ts, err = w.smpSecret(p, []byte("s3cret"))
+				name = "ProvideAuthenticationSecret(\"s3cret\")"
+			}
+			if err != nil && len(ts) == 0 {
+				hist = append(hist, p.id+"."+name+" refused")
+			} else {
+				hist = append(hist, p.id+"."+name)
+			}
+			sl.inspectOutgoing(p, ts) // (nothing is expected to go out)
+			sl.enqueue(p, ts)
+		}
+		g.dist["sched:end-re-ake-refused-calls"]++
+	}
+	if g.r.Intn(4) != 0 {
+		if g.r.Intn(3) != 0 {
+			refused(X)
+		}
+		if !lost && g.r.Intn(3) != 0 {
+			refused(Y)
+		}
+		sl.drain()
+	}
+	if w.dead {
+		return
+	}
 	if lost || g.r.Intn(3) == 0 {
 		// (a query that reaches an encrypted conversation less than a minute after its session began is
 		// not answered)
-		w.tick(61)
+		w.tick(75)
 		hist = append(hist, "61 s later")
 	}
 	st := []*party{X, Y}[g.r.Intn(2)]
@@ -1053,7 +1247,7 @@ func (g *gen) endThenReAkeDisclosure(w *world) {
 			for _, pr := range s.owed {
 				pairs = append(pairs, pr)
 			}
-			olog.viol("C09", "used-key-not-disclosed:after-end", fmt.Sprintf("OTRv%d: %s; %s had accepted messages under %d MAC key(s) not yet disclosed when it called End(); %d of them (receiving MAC key of key pair %s of the ended session) appear in none of the %d data messages %s has emitted since, in the new session on the same conversation", version, strings.Join(hist, ", "), s.p.id, s.owedAtEnd, len(s.owed), strings.Join(pairs, ","), s.dataSince, s.p.id))
+			olog.viol("C09", "used-key-not-disclosed:after-end", fmt.Sprintf("OTRv%d: %s; %s had accepted messages under %d MAC key(s) not yet disclosed when the conversation ended; %d of them (receiving MAC key of key pair %s of the ended session) appear in none of the %d data messages %s has emitted since, in the new session on the same conversation", version, strings.Join(hist, ", "), s.p.id, s.owedAtEnd, len(s.owed), strings.Join(pairs, ","), s.dataSince, s.p.id))
 		}
 	}
 	for _, s := range []*schedSide{sl.sa, sl.sb} {
@@ -1185,6 +1379,162 @@ func (g *gen) eagerPeerStream(w *world) {
 	g.dist["sched:eager-peer-stream"]++
 }
 
+// C19 when one party emits nothing but TLV-carrying data messages for a while (AbortAuthentication,
+// StartAuthenticate, UseExtraSymmetricKey: no text, no heartbeat due) and the peer keeps answering in
+// kind: the DH keys rotate with every round trip, every rotation moves used MAC keys into the reveal
+// queue, and every data message a party sends - with or without TLVs - takes the queue along. Bounds
+// (as in eagerPeerStream): at most 3 keys join the reveal queue per message accepted since the last data
+// message the party SENT, so neither the queue nor the reveal field of any message (the closing text
+// included) depends on the number of rounds.
+func (g *gen) tlvOnlyRounds(w *world) {
+	version := 2 + g.r.Intn(2)
+	fragA := 0
+	if g.r.Intn(4) == 0 {
+		fragA = []int{150, 400}[g.r.Intn(2)]
+	}
+	sl := newSchedLink(w, g, version, fragA, 0)
+	if !sl.a.c.IsEncrypted() || !sl.b.c.IsEncrypted() || w.dead {
+		return
+	}
+	A, B := sl.a, sl.b
+	if g.r.Intn(2) == 0 {
+		A, B = B, A
+	}
+	for i := 0; i < g.r.Intn(3) && !w.dead; i++ { // the ratchets are somewhere
+		sl.sendText(A, g.cleanText())
+		sl.drain()
+		sl.sendText(B, g.cleanText())
+		sl.drain()
+	}
+	n := 8 + g.r.Intn(33)
+	var kinds []string
+	revealFlagged := false
+	firstState := ""
+	defer func() {
+		if firstState == "" {
+			return
+		}
+		if !w.dead {
+			sa, sb := otr3.VerifSnapshot(A.c), otr3.VerifSnapshot(B.c)
+			firstState += fmt.Sprintf("; when the scenario ends (%d such rounds, a text of %s, two rounds of text ping-pong) %s retains oldMACKeys=%d and %s oldMACKeys=%d", n, A.id, A.id, sa.OldMACKeys, B.id, sb.OldMACKeys)
+		}
+		olog.viol("C19", "state-grows", firstState)
+	}()
+	what := func(i int) string {
+		return fmt.Sprintf("OTRv%d: established session, then %d round(s) in which %s and %s exchange nothing but TLV-carrying data messages (%s; every message delivered before the next call)", version, i, A.id, B.id, strings.Join(kinds, " "))
+	}
+	// data messages accepted since the party's last own data message (-1: it has not sent one in this
+	// stretch yet, what it accepted before is not counted here)
+	acc := map[*party]int{A: -1, B: -1}
+	// one call of p whose messages are all delivered; everything the peer accepts counts
+	curRound := 0
+	noteData := func(p *party, ts []otr3.ValidMessage) {
+		for _, m := range reassembleAll(ts) {
+			old, ok := otr3.VerifOldMACKeys(m)
+			if !ok || !isDataWire(m) {
+				continue
+			}
+			olog.ok("C19")
+			if acc[p] >= 0 && len(old) > 3*acc[p] && !revealFlagged {
+				revealFlagged = true
+				olog.viol("C19", "reveal-field-grows", fmt.Sprintf("%s; the data message %s emits next (flags %s, %d bytes encoded) reveals %d MAC keys although %s accepted only %d message(s) since the last data message it sent", what(curRound), p.id, flagStr(m), len(m), len(old), p.id, acc[p]))
+			}
+			acc[p] = 0
+			if acc[sl.peer(p)] >= 0 {
+				acc[sl.peer(p)]++
+			}
+		}
+	}
+	// deliver everything; data messages a party emits on its own while receiving count as well
+	drainCounted := func() {
+		for k := 0; k < 2000 && (len(sl.qab) > 0 || len(sl.qba) > 0) && !w.dead; k++ {
+			for _, toB := range []bool{true, false} {
+				r, outq := sl.b, &sl.qba
+				if !toB {
+					r, outq = sl.a, &sl.qab
+				}
+				n0 := len(*outq)
+				if !sl.deliverOne(toB) {
+					continue
+				}
+				var back []otr3.ValidMessage
+				for _, m := range (*outq)[n0:] {
+					back = append(back, otr3.ValidMessage(m))
+				}
+				noteData(r, back)
+			}
+		}
+	}
+	emit := func(p *party, i int, call func() []otr3.ValidMessage) {
+		curRound = i
+		ts := call()
+		if w.dead {
+			return
+		}
+		noteData(p, ts)
+		sl.inspectOutgoing(p, ts)
+		sl.enqueue(p, ts)
+		drainCounted()
+		for _, q := range []*party{A, B} {
+			snap := otr3.VerifSnapshot(q.c)
+			olog.ok("C19")
+			if (acc[q] >= 0 && snap.OldMACKeys > 3*acc[q] || len(snap.Counters) > 6 || len(snap.MacHistory) > 6) && firstState == "" {
+				firstState = (fmt.Sprintf("%s; %s now retains oldMACKeys=%d (MAC keys waiting to be revealed; it accepted %d message(s) since the last data message it sent) counters=%d macHistory=%d; key ids our=%d their=%d", what(i), q.id, snap.OldMACKeys, acc[q], len(snap.Counters), len(snap.MacHistory), snap.OurKeyID, snap.TheirKeyID))
+			}
+		}
+	}
+	tlvCall := func(p *party, allowStart bool) (string, func() []otr3.ValidMessage) {
+		k := g.r.Intn(6)
+		switch {
+		case k < 3 || k == 5 && !allowStart:
+			return p.id + ".AbortAuthentication", func() []otr3.ValidMessage { ts, _ := w.smpAbort(p); return ts }
+		case k < 5:
+			usage, data := g.r.Uint32(), g.blob()
+			return p.id + ".UseExtraSymmetricKey", func() []otr3.ValidMessage { _, ts, _ := w.extraKey(p, usage, data); return ts }
+		}
+		return p.id + ".StartAuthenticate", func() []otr3.ValidMessage { ts, _ := w.smpStart(p, "", []byte("s3cret")); return ts }
+	}
+	for i := 1; i <= n && !w.dead; i++ {
+		ka, ca := tlvCall(A, true)
+		kb, cb := tlvCall(B, false)
+		if i <= 3 {
+			kinds = append(kinds, ka, kb)
+		} else if i == 4 {
+			kinds = append(kinds, "...")
+		}
+		emit(A, i, ca)
+		emit(B, i, cb)
+		if !A.c.IsEncrypted() || !B.c.IsEncrypted() {
+			g.dist["sched:tlv-only-session-lost"]++
+			return
+		}
+	}
+	if w.dead {
+		return
+	}
+	text := g.cleanText()
+	kinds = append(kinds, fmt.Sprintf("then %s sends the text %q", A.id, text))
+	emit(A, n, func() []otr3.ValidMessage {
+		ts, err := w.send(A, text)
+		if err == nil {
+			sl.side(B).expect = append(sl.side(B).expect, text)
+		}
+		return ts
+	})
+	for i := 0; i < 2 && !w.dead; i++ {
+		sl.sendText(B, g.cleanText())
+		sl.drain()
+		sl.sendText(A, g.cleanText())
+		sl.drain()
+	}
+	for _, s := range []*schedSide{sl.sa, sl.sb} {
+		if len(s.expect) > 0 && !w.dead {
+			olog.viol("C04", "lost", fmt.Sprintf("%s never received %d text(s) the peer sent, first %q", s.p.id, len(s.expect), s.expect[0]))
+		}
+	}
+	g.dist["sched:tlv-only-rounds"]++
+}
+
 // C09: a MAC key is used as soon as a message has been accepted under it, whatever happens to the
 // TLVs of that message afterwards. The first data message of a session (the only one its addressee
 // gets under the pair 1:1, and the addressee has not sent under that pair) carries a text, an SMP TLV
@@ -1280,6 +1630,14 @@ func init() {
 				w.parties = map[string]*party{}
 				w.dead = false
 				g.eagerPeerStream(w)
+			}
+			if i%4 == 2 {
+				w.parties = map[string]*party{}
+				w.dead = false
+				g.tlvOnlyRounds(w)
+			}
+			if i%2 == 1 {
+				g.maxCounterReplay(w)
 			}
 		}
 		extra["panics"] = panicCount
